@@ -83,6 +83,11 @@ Ltac spec_each H l :=
       assert (Hn := H fd ltac:(in_literal)); vm_compute in Hn; spec_each H l'
   end.
 
+Ltac inj_all :=
+  repeat match goal with
+         | Hf : Some _ = Some _ |- _ => first [discriminate Hf | injection Hf; clear Hf; intros]
+         end.
+
 Lemma args_ext x acc :
   inv_args x -> inv_args acc ->
   (forall fd, In fd argsF -> get_args (f_name fd) acc = get_args (f_name fd) x) -> acc = x.
@@ -93,7 +98,8 @@ Proof.
   unfold inv_args in *. cbn [fst snd a_salt] in *. unfold argsF in H.
   let l := eval unfold argsF in argsF in spec_each H l.
   clear H.
-  destruct nn, nn'; try specialize (Hx eq_refl); try specialize (Ha eq_refl); congruence.
+  destruct nn, nn'; try specialize (Hx eq_refl); try specialize (Ha eq_refl); inj_all; subst;
+    first [reflexivity | discriminate | congruence].
 Qed.
 
 Lemma ret_ext x acc :
@@ -106,7 +112,8 @@ Proof.
   unfold inv_ret in *. cbn [fst snd r_v] in *. unfold retF in H.
   let l := eval unfold retF in retF in spec_each H l.
   clear H.
-  destruct nn, nn'; try specialize (Hx eq_refl); try specialize (Ha eq_refl); congruence.
+  destruct nn, nn'; try specialize (Hx eq_refl); try specialize (Ha eq_refl); inj_all; subst;
+    first [reflexivity | discriminate | congruence].
 Qed.
 
 Lemma msg_ext x acc :
@@ -122,5 +129,61 @@ Proof.
   clear H.
   destruct a, a', r, r'; cbn [option_map] in *;
     try specialize (Hx1 eq_refl); try specialize (Hx2 eq_refl);
-    try specialize (Ha1 eq_refl); try specialize (Ha2 eq_refl); congruence.
+    try specialize (Ha1 eq_refl); try specialize (Ha2 eq_refl); inj_all; subst;
+    first [reflexivity | discriminate | congruence].
+Qed.
+
+(* ---- the same laws, read from a successful assignment (used for what the decoder builds) ---- *)
+Ltac split_fv fv :=
+  destruct fv;
+  try match goal with o : option _ |- _ => destruct o as [?|] end;
+  try match goal with p : (_ * _)%type |- _ => destruct p end;
+  try match goal with p : xargs |- _ => destruct p end;
+  try match goal with p : xret |- _ => destruct p end.
+
+Lemma args_set_ok fd fv acc acc' :
+  In fd argsF -> set_args (f_name fd) fv acc = Some acc' -> inv_args acc ->
+  inv_args acc' /\ get_args (f_name fd) acc' = Some fv /\
+  (forall fd', In fd' argsF -> f_name fd' <> f_name fd -> get_args (f_name fd') acc' = get_args (f_name fd') acc).
+Proof.
+  intros H. revert acc acc'. split_fv fv; intros acc acc' Hs Hi;
+  destruct acc as [a' nn']; unfold argsF in H; unfold inv_args in *; cbn [fst snd] in *;
+  each_in H ltac:(
+    vm_compute in Hs; first [discriminate Hs | (injection Hs as <-;
+    split; [cbn [fst snd a_salt]; first [exact Hi | intros; congruence | reflexivity]|];
+    split; [vm_compute; reflexivity|];
+    let fd' := fresh "fd'" in let H' := fresh "H'" in let Hne := fresh "Hne" in
+    intros fd' H' Hne; unfold argsF in H'; other_fields H' Hne)]).
+Qed.
+
+Lemma ret_set_ok fd fv acc acc' :
+  In fd retF -> set_ret (f_name fd) fv acc = Some acc' -> inv_ret acc ->
+  inv_ret acc' /\ get_ret (f_name fd) acc' = Some fv /\
+  (forall fd', In fd' retF -> f_name fd' <> f_name fd -> get_ret (f_name fd') acc' = get_ret (f_name fd') acc).
+Proof.
+  intros H. revert acc acc'. split_fv fv; intros acc acc' Hs Hi;
+  destruct acc as [a' nn']; unfold retF in H; unfold inv_ret in *; cbn [fst snd] in *;
+  each_in H ltac:(
+    vm_compute in Hs; first [discriminate Hs | (injection Hs as <-;
+    split; [cbn [fst snd r_v]; first [exact Hi | intros; congruence | reflexivity]|];
+    split; [vm_compute; reflexivity|];
+    let fd' := fresh "fd'" in let H' := fresh "H'" in let Hne := fresh "Hne" in
+    intros fd' H' Hne; unfold retF in H'; other_fields H' Hne)]).
+Qed.
+
+Lemma msg_set_ok fd fv acc acc' :
+  In fd msgF -> set_msg (f_name fd) fv acc = Some acc' -> inv_msg acc ->
+  inv_msg acc' /\ get_msg (f_name fd) acc' = Some fv /\
+  (forall fd', In fd' msgF -> f_name fd' <> f_name fd -> get_msg (f_name fd') acc' = get_msg (f_name fd') acc).
+Proof.
+  intros H. revert acc acc'. split_fv fv; intros acc acc' Hs Hi;
+  destruct acc as [[q' a' t' y' r' e' ip' ro' v'] ipnn' snn' rnn'];
+  unfold msgF in H; unfold inv_msg in *; cbn [x_msg m_a m_r x_salt_nn x_rv_nn] in *; destruct Hi as [Hi1 Hi2];
+  each_in H ltac:(
+    vm_compute in Hs; first [discriminate Hs | (injection Hs as <-;
+    split; [cbn [x_msg m_a m_r x_salt_nn x_rv_nn option_map fst];
+            split; first [exact Hi1 | exact Hi2 | intros; reflexivity | intros; discriminate]|];
+    split; [vm_compute; reflexivity|];
+    let fd' := fresh "fd'" in let H' := fresh "H'" in let Hne := fresh "Hne" in
+    intros fd' H' Hne; unfold msgF in H'; other_fields H' Hne)]).
 Qed.
